@@ -314,8 +314,29 @@ theorem mcLoop_encode (hd : Bytes) (hhd : hd.length = 2) (tail : Bytes) :
     rw [e, el] at hrest
     simp only [List.length_cons]
     unfold mcLoop
-    rw [if_neg (by simp only [U16]; omega)]
     simp only [r1, r2, r3, r4, hrest]
+
+/-- a 16-bit read inside the record succeeds -/
+theorem readU16At_ok (r : Bytes) (off : Nat) (h : off + 2 ≤ r.length) : ∃ v, readU16At r off = .ok v := by
+  unfold readU16At
+  have hl : (r.drop off).length = r.length - off := List.length_drop
+  match hd : r.drop off with
+  | [] => rw [hd] at hl; simp at hl; omega
+  | [_] => rw [hd] at hl; simp at hl; omega
+  | a :: b :: _ => exact ⟨_, rfl⟩
+
+/-- the loop never fails once the record is known to hold all the entries it announces -/
+theorem mcLoop_ok (r : Bytes) : ∀ (k i : Nat), 2 + 8 * (i + k) ≤ r.length → ∃ ds, mcLoop r k i = .ok ds
+  | 0, _, _ => ⟨[], rfl⟩
+  | k + 1, i, h => by
+    obtain ⟨v1, h1⟩ := readU16At_ok r (2 + i * 8) (by omega)
+    obtain ⟨v2, h2⟩ := readU16At_ok r (2 + i * 8 + 2) (by omega)
+    obtain ⟨v3, h3⟩ := readU16At_ok r (2 + i * 8 + 4) (by omega)
+    obtain ⟨v4, h4⟩ := readU16At_ok r (2 + i * 8 + 6) (by omega)
+    obtain ⟨ds, h5⟩ := mcLoop_ok r k (i + 1) (by omega)
+    refine ⟨⟨v1, v3, v2, v4⟩ :: ds, ?_⟩
+    unfold mcLoop
+    simp only [h1, h2, h3, h4, h5]
 
 end Geometry
 
